@@ -1,8 +1,44 @@
-//! Tier R: real bash through the pass-through seam (C12 carrier lock-step, C13 stub conformance).
+//! Tier R: real bash through the pass-through seam.
+//!
+//! * C12 (b): seeded histories of state-changing snippets followed by probes, run through the
+//!   real `StatefulExecutor` (one bash process per snippet, state carried through the state
+//!   file) and, as the reference, through ONE bash process fed the same snippets. Lock-step
+//!   comparison of every probe's stdout and status.
+//! * C13: stub conformance - a fixed sample of simulated scenarios is also executed by real
+//!   bash (`printf` of the same bytes); the executor's Outputs must agree with the simulated
+//!   ones. A disagreement is a harness error (the stub misrepresents reality), not a violation.
+//!
+//! Execution here is strictly sequential (scrut blocks while bash runs), so there is no
+//! schedule to control; determinism is nevertheless checked by running every failing history twice.
 
 use std::collections::BTreeMap;
+use std::io::Write;
+use std::path::Path;
+use std::path::PathBuf;
+use std::process::Command;
+use std::process::Stdio;
+use std::sync::atomic::AtomicUsize;
+use std::sync::atomic::Ordering;
+use std::sync::Arc;
+use std::sync::Mutex;
+
+use scrut::config::DocumentConfig;
+use scrut::config::TestCaseConfig;
+use scrut::executors::bash_runner::BashRunner;
+use scrut::executors::bash_script_executor::BashScriptExecutor;
+use scrut::executors::context::ContextBuilder;
+use scrut::executors::executor::Executor;
+use scrut::executors::stateful_executor::StatefulExecutor;
+use scrut::output::ExitStatus;
+use scrut::testcase::TestCase;
+use scrut::verif_sim::scenario::*;
+use scrut::verif_sim::world::Rng;
+use serde::Deserialize;
+use serde::Serialize;
 
 use crate::known::KnownFile;
+use crate::obs::*;
+use crate::scn::*;
 
 #[derive(Default)]
 pub struct RealReport {
@@ -15,10 +51,726 @@ pub struct RealReport {
     pub coverage: serde_json::Value,
 }
 
-pub fn run_real(_prop: &str, _tier: &str, _seed: u64, _threads: usize, _known: &KnownFile) -> RealReport {
-    RealReport::default()
+#[derive(Clone, Debug, PartialEq, Eq, Serialize, Deserialize)]
+pub struct Snippet {
+    pub code: String,
+    /// "normal" | "exit:N" | "detached"
+    pub end: String,
+    /// what this snippet is about (for signatures and known-finding predicates)
+    pub tag: String,
 }
 
-pub fn replay_real(_path: &str, _text: &str) -> i32 {
-    2
+#[derive(Clone, Debug, PartialEq, Eq, Serialize, Deserialize)]
+pub struct History {
+    pub real_history: bool,
+    pub id: String,
+    pub snippets: Vec<Snippet>,
+}
+
+pub const INHERITED: &str = "VS_INHERITED";
+
+fn scratch_root() -> PathBuf {
+    let p = std::env::var("VSIM_SCRATCH").unwrap_or_else(|_| "/verif/scratch".into());
+    let p = PathBuf::from(p);
+    let _ = std::fs::create_dir_all(&p);
+    p
+}
+
+// ------------------------------------------------------------------ grammar
+
+struct HG {
+    rng: Rng,
+}
+
+impl HG {
+    fn below(&mut self, n: u64) -> u64 {
+        self.rng.below(n)
+    }
+    fn pick<'a, T>(&mut self, xs: &'a [T]) -> &'a T {
+        &xs[self.rng.below(xs.len() as u64) as usize]
+    }
+    fn value(&mut self) -> String {
+        let v: [&str; 12] = [
+            "plain",
+            "'two words'",
+            "'  lead and trail  '",
+            "\"dq \\\"inner\\\" q\"",
+            "'sq '\\''inner'\\'' q'",
+            "'dollar $HOME $(echo no) `no`'",
+            "'back\\slash \\\\ two'",
+            "$'line1\\nline2\\n'",
+            "$'tab\\there'",
+            "'ünïcödé ☃ 漢字'",
+            "''",
+            "'star * ? [a-z] {a,b}'",
+        ];
+        if self.below(25) == 0 {
+            // long value
+            let n = *self.pick(&[1000usize, 20_000, 100_000]);
+            return format!("\"$(printf 'x%.0s' $(seq 1 {}))\"", n);
+        }
+        self.pick(&v).to_string()
+    }
+}
+
+const PROBE_VARS: &[&str] = &["VE1", "VE2", "VS1", "vs_lower", "VA1", "VH1", "VI1", INHERITED];
+
+fn probe_all() -> String {
+    let mut s = String::new();
+    for v in PROBE_VARS {
+        s.push_str(&format!("declare -p {v} 2>/dev/null || echo {v}:unset\n"));
+    }
+    s.push_str("printenv VE1 || echo VE1:not-in-env\n");
+    s.push_str(&format!("printenv {INHERITED} || echo {INHERITED}:not-in-env\n"));
+    s.push_str("declare -f f1 || echo f1:undefined\n");
+    s.push_str("declare -f f_heredoc || echo f_heredoc:undefined\n");
+    s.push_str("declare -F | grep -c -E ' (f1|f2|f_heredoc)$'\n");
+    s.push_str("alias a1 2>/dev/null || echo a1:noalias\n");
+    s.push_str("alias a2 2>/dev/null || echo a2:noalias\n");
+    s.push_str("set -o | grep -E '^(pipefail|nounset|noglob|noclobber) '\n");
+    s.push_str("shopt -p nullglob extglob dotglob nocasematch\n");
+    s.push_str("pwd\n");
+    s.push_str("dirs -l -p\n");
+    s
+}
+
+fn gen_history(seed: u64, idx: usize, steer_around_known: bool) -> History {
+    let mut g = HG {
+        rng: Rng::new(seed ^ 0x12b ^ ((idx as u64) << 18)),
+    };
+    let n = 2 + g.below(6) as usize;
+    let mut snippets = vec![];
+    for k in 0..n {
+        let (tag, code): (String, String) = match g.below(30) {
+            0 => ("export-define".into(), format!("export VE1={}", g.value())),
+            1 => ("export-modify".into(), "export VE1=\"${VE1:-none} more\"".into()),
+            2 => ("export-unset".into(), "unset VE1".into()),
+            3 => ("export-attr-only".into(), format!("VE2={}; export VE2", g.value())),
+            4 => ("var-define".into(), format!("VS1={}", g.value())),
+            5 => ("var-modify".into(), "VS1=\"<${VS1:-}>\"".into()),
+            6 => ("var-unset".into(), "unset VS1".into()),
+            7 => ("var-lower".into(), format!("vs_lower={}", g.value())),
+            8 => ("array-define".into(), format!("VA1=(one {} 'three 3')", g.value())),
+            9 => ("array-modify".into(), "VA1+=(appended); VA1[1]='replaced one'".into()),
+            10 => ("array-unset-elem".into(), "unset 'VA1[0]'".into()),
+            11 => ("assoc-define".into(), format!("declare -A VH1=([k1]=v1 ['k 2']={})", g.value())),
+            12 => ("assoc-modify".into(), "if declare -p VH1 >/dev/null 2>&1; then VH1[new]='added'; unset 'VH1[k1]'; fi".into()),
+            13 => ("int-define".into(), "declare -i VI1=5".into()),
+            14 => ("int-modify".into(), "VI1+=3".into()),
+            15 => ("func-define".into(), format!("f1() {{ echo \"f1:$1:{}\"; local x=1; return 3; }}", k)),
+            16 => ("func-unset".into(), "unset -f f1".into()),
+            17 => ("func-second".into(), "function f2 { printf '%s\\n' \"$@\"; }".into()),
+            18 => ("alias-define".into(), format!("alias a1='echo aliased{}'", k)),
+            19 => ("alias-unset".into(), "unalias a1 2>/dev/null".into()),
+            20 => ("alias-second".into(), "alias a2=\"printf '%s|' one two\"".into()),
+            21 => (
+                "set-o".into(),
+                format!("set {}o {}", g.pick(&["-", "+"]), g.pick(&["pipefail", "nounset", "noglob", "noclobber"])),
+            ),
+            22 => (
+                "shopt".into(),
+                format!("shopt -{} {}", g.pick(&["s", "u"]), g.pick(&["nullglob", "extglob", "dotglob", "nocasematch"])),
+            ),
+            23 => ("cd".into(), format!("cd {} 2>/dev/null", g.pick(&["'d 1'", "d2", "..", "d2/inner", "\"$VS_BASE\""]))),
+            24 => ("pushd".into(), format!("pushd {} >/dev/null 2>&1", g.pick(&["'d 1'", "d2", "d2/inner"]))),
+            25 => ("popd".into(), "popd >/dev/null 2>&1".into()),
+            26 => {
+                if steer_around_known {
+                    ("inherited-modify".into(), format!("{INHERITED}=changed-{}", k))
+                } else {
+                    ("inherited-unset".into(), format!("unset {INHERITED}"))
+                }
+            }
+            27 => ("inherited-modify".into(), format!("export {INHERITED}=changed-{}", k)),
+            28 => {
+                if steer_around_known {
+                    ("func-define".into(), "f1() { echo again; }".into())
+                } else {
+                    (
+                        "func-heredoc-declare-r".into(),
+                        "f_heredoc() { cat <<EOT\ndeclare -r looks_readonly=1\nplain line\nEOT\n}".into(),
+                    )
+                }
+            }
+            _ => ("use".into(), "f1 arg 2>/dev/null; a1 2>/dev/null; echo \"${VS1:-} ${VE1:-} ${VA1[*]:-}\"".into()),
+        };
+        let end = match g.below(12) {
+            0 => format!("exit:{}", g.pick(&[0, 1, 3, 42])),
+            1 => "fail".to_string(),
+            2 if k + 1 < n => "detached".to_string(),
+            _ => "normal".to_string(),
+        };
+        snippets.push(Snippet { code, end, tag });
+    }
+    History {
+        real_history: true,
+        id: format!("h{}", idx),
+        snippets,
+    }
+}
+
+/// each state class x define / modify / unset, followed by a probe
+fn systematic_histories() -> Vec<History> {
+    let classes: Vec<(&str, &str, &str, &str)> = vec![
+        ("export", "export VE1='exported value'", "export VE1=\"$VE1 changed\"", "unset VE1"),
+        ("var", "VS1='shell $var \\ value'", "VS1=\"[$VS1]\"", "unset VS1"),
+        ("array", "VA1=(a 'b c' d)", "VA1+=(e); VA1[0]=z", "unset VA1"),
+        ("assoc", "declare -A VH1=([x]=1 ['y z']='2 3')", "VH1[w]=4; unset 'VH1[x]'", "unset VH1"),
+        ("int", "declare -i VI1=7", "VI1+=5", "unset VI1"),
+        ("func", "f1() { echo one; }", "f1() { echo two; return 2; }", "unset -f f1"),
+        ("alias", "alias a1='echo first'", "alias a1='echo second'", "unalias a1"),
+        ("set-o", "set -o pipefail; set -o noglob", "set +o noglob; set -o nounset", "set +o pipefail; set +o nounset"),
+        ("shopt", "shopt -s nullglob extglob", "shopt -u nullglob; shopt -s dotglob", "shopt -u extglob dotglob"),
+        ("cd", "cd 'd 1'", "cd ../d2/inner", "cd \"$VS_BASE\""),
+        ("dirstack", "pushd 'd 1' >/dev/null; pushd ../d2 >/dev/null", "pushd inner >/dev/null", "popd >/dev/null; popd >/dev/null"),
+        ("inherited-modify", &"export VS_INHERITED=changed", "VS_INHERITED=\"$VS_INHERITED again\"", "true"),
+    ];
+    let mut out = vec![];
+    for (name, define, modify, unset) in classes {
+        for ends in [["normal", "normal", "normal"], ["exit:3", "normal", "fail"], ["normal", "exit:0", "normal"]] {
+            let mk = |code: &str, end: &str, tag: &str| Snippet {
+                code: code.to_string(),
+                end: end.to_string(),
+                tag: format!("{}-{}", name, tag),
+            };
+            out.push(History {
+                real_history: true,
+                id: format!("sys-{}-{}", name, ends.join("_")),
+                snippets: vec![mk(define, ends[0], "define"), mk(modify, ends[1], "modify"), mk(unset, ends[2], "unset")],
+            });
+            // with a detached snippet in between that changes the same state: it must leave nothing
+            out.push(History {
+                real_history: true,
+                id: format!("sys-{}-detached-{}", name, ends.join("_")),
+                snippets: vec![
+                    mk(define, ends[0], "define"),
+                    Snippet {
+                        code: format!("{}; VS1=from-detached; alias a2='echo detached'; cd /", unset),
+                        end: "detached".into(),
+                        tag: format!("{}-detached", name),
+                    },
+                    mk(modify, ends[1], "modify"),
+                ],
+            });
+        }
+    }
+    out
+}
+
+// ------------------------------------------------------------------ execution
+
+fn snippet_source(s: &Snippet, for_reference: bool) -> String {
+    // state change, then the probes; the probes' output is what gets compared
+    let mut code = s.code.clone();
+    code.push('\n');
+    code.push_str(&probe_all());
+    match s.end.as_str() {
+        "fail" => code.push_str("false\n"),
+        e if e.starts_with("exit:") => {
+            let n = &e[5..];
+            if for_reference {
+                code.push_str(&format!("(exit {})\n", n));
+            } else {
+                code.push_str(&format!("exit {}\n", n));
+            }
+        }
+        _ => code.push_str("true\n"),
+    }
+    code
+}
+
+struct Layout {
+    root: tempfile::TempDir,
+    work: PathBuf,
+    tmp: PathBuf,
+}
+
+fn layout() -> std::io::Result<Layout> {
+    let root = tempfile::Builder::new().prefix("vr.").tempdir_in(scratch_root())?;
+    let work = root.path().join("base");
+    let tmp = root.path().join("tmp");
+    std::fs::create_dir_all(work.join("d 1"))?;
+    std::fs::create_dir_all(work.join("d2/inner"))?;
+    std::fs::create_dir_all(&tmp)?;
+    Ok(Layout { root, work, tmp })
+}
+
+fn normalise(out: &[u8], base: &Path) -> String {
+    let s = String::from_utf8_lossy(out).replace(&*base.to_string_lossy(), "$BASE");
+    match base.parent() {
+        Some(root) => s.replace(&*root.to_string_lossy(), "$ROOT"),
+        None => s,
+    }
+}
+
+/// (stdout, status) per non-detached snippet
+type Trace = Vec<(String, String)>;
+
+fn run_through_scrut(h: &History) -> Result<Trace, String> {
+    let l = layout().map_err(|e| e.to_string())?;
+    let mut env: BTreeMap<String, String> = BTreeMap::new();
+    env.insert("VS_BASE".into(), l.work.to_string_lossy().into_owned());
+    env.insert("HOME".into(), "/nonexistent-home".into());
+    let testcases: Vec<TestCase> = h
+        .snippets
+        .iter()
+        .enumerate()
+        .map(|(i, s)| {
+            let mut config = TestCaseConfig::default_markdown();
+            config.environment = env.clone();
+            if s.end == "detached" {
+                config.detached = Some(true);
+            }
+            TestCase {
+                title: format!("s{}", i),
+                shell_expression: snippet_source(s, false),
+                expectations: vec![],
+                exit_code: None,
+                line_number: i + 1,
+                config,
+            }
+        })
+        .collect();
+    let refs: Vec<&TestCase> = testcases.iter().collect();
+    let context = ContextBuilder::default()
+        .work_directory(l.work.clone())
+        .temp_directory(l.tmp.clone())
+        .file(PathBuf::from("history.md"))
+        .config(DocumentConfig::default_markdown())
+        .build()
+        .map_err(|e| e.to_string())?;
+    let executor = StatefulExecutor::new(BashRunner::stateful_generator(Path::new("/bin/bash")));
+    let outputs = executor.execute_all(&refs, &context).map_err(|e| format!("execute_all: {}", e))?;
+    let mut trace = vec![];
+    for (s, o) in h.snippets.iter().zip(outputs.iter()) {
+        if s.end == "detached" {
+            continue;
+        }
+        let stdout: &[u8] = (&o.stdout).into();
+        let status = match &o.exit_code {
+            ExitStatus::Code(c) => c.to_string(),
+            other => format!("{}", other),
+        };
+        trace.push((normalise(stdout, &l.work), status));
+    }
+    // give detached shells a moment to end before the directories go away
+    drop(l.root);
+    Ok(trace)
+}
+
+fn run_reference(h: &History) -> Result<Trace, String> {
+    let l = layout().map_err(|e| e.to_string())?;
+    let mut script = String::new();
+    script.push_str("shopt -s expand_aliases\n");
+    let mut n = 0;
+    for s in &h.snippets {
+        if s.end == "detached" {
+            continue;
+        }
+        script.push_str(&snippet_source(s, true));
+        script.push_str(&format!("echo \"@@VS-MARK {} $?@@\"\n", n));
+        n += 1;
+    }
+    let mut child = Command::new("/bin/bash")
+        .current_dir(&l.work)
+        .env("VS_BASE", &l.work)
+        .env("HOME", "/nonexistent-home")
+        .env("SHELL", "/bin/bash")
+        .stdin(Stdio::piped())
+        .stdout(Stdio::piped())
+        .stderr(Stdio::null())
+        .spawn()
+        .map_err(|e| e.to_string())?;
+    {
+        let mut si = child.stdin.take().unwrap();
+        let sc = script.clone();
+        std::thread::spawn(move || {
+            let _ = si.write_all(sc.as_bytes());
+        });
+    }
+    let out = child.wait_with_output().map_err(|e| e.to_string())?;
+    let text = normalise(&out.stdout, &l.work);
+    let mut trace = vec![];
+    let mut cur = String::new();
+    for line in text.split_inclusive('\n') {
+        if let Some(rest) = line.strip_prefix("@@VS-MARK ") {
+            let rest = rest.trim_end().trim_end_matches("@@");
+            let status = rest.split(' ').nth(1).unwrap_or("?").to_string();
+            trace.push((std::mem::take(&mut cur), status));
+        } else {
+            cur.push_str(line);
+        }
+    }
+    if trace.len() != n {
+        return Err(format!("reference session ended early: {} of {} markers", trace.len(), n));
+    }
+    Ok(trace)
+}
+
+fn compare(h: &History) -> Result<Option<String>, String> {
+    let a = run_through_scrut(h)?;
+    let b = run_reference(h)?;
+    if a.len() != b.len() {
+        return Ok(Some(format!("{} results through scrut, {} in the single session", a.len(), b.len())));
+    }
+    let live: Vec<&Snippet> = h.snippets.iter().filter(|s| s.end != "detached").collect();
+    for (i, (x, y)) in a.iter().zip(b.iter()).enumerate() {
+        if x != y {
+            let (xl, yl): (Vec<&str>, Vec<&str>) = (x.0.lines().collect(), y.0.lines().collect());
+            let mut diff = String::new();
+            for k in 0..xl.len().max(yl.len()) {
+                let (p, q) = (xl.get(k).copied().unwrap_or("<missing>"), yl.get(k).copied().unwrap_or("<missing>"));
+                if p != q {
+                    let cut = |s: &str| s.chars().take(160).collect::<String>();
+                    diff = format!("probe line {}: per-process {:?} vs single session {:?}", k + 1, cut(p), cut(q));
+                    break;
+                }
+            }
+            if diff.is_empty() {
+                diff = format!("status {} vs {}", x.1, y.1);
+            }
+            return Ok(Some(format!("after snippet #{} ({}): {}", i + 1, live[i].tag, diff)));
+        }
+    }
+    Ok(None)
+}
+
+fn known_real<'a>(k: &'a KnownFile, h: &History, detail: &str) -> Option<&'a crate::known::Finding> {
+    k.findings.iter().find(|f| {
+        f.status == "known"
+            && f.property == "C12"
+            && match f.predicate.as_str() {
+                "unset-of-inherited-variable" => {
+                    h.snippets.iter().any(|s| s.tag == "inherited-unset") && detail.contains(INHERITED)
+                }
+                "heredoc-line-looks-like-readonly-declare" => {
+                    h.snippets.iter().any(|s| s.tag == "func-heredoc-declare-r") && detail.contains("looks_readonly")
+                        || (h.snippets.iter().any(|s| s.tag == "func-heredoc-declare-r") && detail.contains("f_heredoc"))
+                }
+                _ => false,
+            }
+    })
+}
+
+fn minimise_history(h: &History, keep: &dyn Fn(&History) -> bool) -> History {
+    let mut best = h.clone();
+    let mut progress = true;
+    while progress && best.snippets.len() > 1 {
+        progress = false;
+        for i in 0..best.snippets.len() {
+            let mut c = best.clone();
+            c.snippets.remove(i);
+            if keep(&c) {
+                best = c;
+                progress = true;
+                break;
+            }
+        }
+    }
+    for i in 0..best.snippets.len() {
+        if best.snippets[i].end != "normal" {
+            let mut c = best.clone();
+            c.snippets[i].end = "normal".into();
+            if keep(&c) {
+                best = c;
+            }
+        }
+    }
+    best
+}
+
+pub fn run_real(prop: &str, tier: &str, seed: u64, threads: usize, known: &KnownFile) -> RealReport {
+    // the variable every bash started from here inherits (finding G is about unsetting it)
+    std::env::set_var(INHERITED, "inherited-value");
+    match prop {
+        "C12" => run_c12(tier, seed, threads, known),
+        "C13" => run_c13_conformance(tier, seed, threads),
+        _ => RealReport::default(),
+    }
+}
+
+fn run_c12(tier: &str, seed: u64, threads: usize, known: &KnownFile) -> RealReport {
+    let n_random = if tier == "thorough" { 60_000 } else { 500 };
+    let mut hs = systematic_histories();
+    for i in 0..n_random {
+        // two lanes: one that may produce the known triggers and one that steers around them
+        hs.push(gen_history(seed, i, i % 2 == 0));
+    }
+    let hs = Arc::new(hs);
+    let next = Arc::new(AtomicUsize::new(0));
+    let results: Arc<Mutex<Vec<(usize, Result<Option<String>, String>)>>> = Arc::new(Mutex::new(vec![]));
+    let mut handles = vec![];
+    for _ in 0..threads.max(1) {
+        let (hs, next, results) = (hs.clone(), next.clone(), results.clone());
+        handles.push(std::thread::spawn(move || loop {
+            let i = next.fetch_add(1, Ordering::SeqCst);
+            if i >= hs.len() {
+                break;
+            }
+            let r = compare(&hs[i]);
+            results.lock().unwrap().push((i, r));
+        }));
+    }
+    for h in handles {
+        let _ = h.join();
+    }
+    let mut results = Arc::try_unwrap(results).ok().unwrap().into_inner().unwrap();
+    results.sort_by_key(|r| r.0);
+    let mut rep = RealReport::default();
+    rep.runs = hs.len() as u64;
+    let mut tag_counts: BTreeMap<String, u64> = BTreeMap::new();
+    let mut sigs = std::collections::BTreeSet::new();
+    for h in hs.iter() {
+        let sig: Vec<String> = h.snippets.iter().map(|s| format!("{}/{}", s.tag, s.end.split(':').next().unwrap_or(""))).collect();
+        sigs.insert(sig.join(","));
+        for s in &h.snippets {
+            *tag_counts.entry(s.tag.clone()).or_insert(0) += 1;
+        }
+    }
+    rep.signatures = sigs.into_iter().map(|s| format!("R|{}", s)).collect();
+    let mut fresh: BTreeMap<String, (usize, String)> = BTreeMap::new();
+    for (i, r) in &results {
+        match r {
+            Err(e) => rep.harness_errors.push(format!("[real {}] {}", hs[*i].id, e)),
+            Ok(None) => {}
+            Ok(Some(detail)) => match known_real(known, &hs[*i], detail) {
+                Some(f) => {
+                    let e = rep.known_hits.entry(f.id.clone()).or_insert((0, f.what.clone()));
+                    e.0 += 1;
+                }
+                None => {
+                    // class = the kind of snippet after which the sessions diverge
+                    let class = detail
+                        .split('(')
+                        .nth(1)
+                        .and_then(|s| s.split(')').next())
+                        .map(|t| t.rsplit_once('-').map(|x| x.0).unwrap_or(t).to_string())
+                        .unwrap_or_else(|| "state".into());
+                    fresh.entry(class).or_insert((*i, detail.clone()));
+                }
+            },
+        }
+    }
+    let _ = std::fs::create_dir_all("/verif/replays");
+    for (class, (i, detail)) in fresh.iter().take(5) {
+        println!("vsim: C12/state-differs-real/{} - history {}: {}", class, hs[*i].id, detail);
+        let keep = |c: &History| -> bool {
+            matches!(compare(c), Ok(Some(d)) if known_real(known, c, &d).is_none())
+        };
+        let min = minimise_history(&hs[*i], &keep);
+        // must reproduce, twice
+        if !(keep(&min) && keep(&min)) {
+            rep.harness_errors.push(format!("[real {}] divergence does not reproduce after minimisation", hs[*i].id));
+            continue;
+        }
+        let text = serde_json::to_string_pretty(&min).unwrap();
+        let mut hsh = 0xcbf29ce484222325u64;
+        for c in text.bytes() {
+            hsh ^= c as u64;
+            hsh = hsh.wrapping_mul(0x100000001b3);
+        }
+        let path = format!("/verif/replays/C12-state-differs-real-{:08x}.json", hsh as u32);
+        if std::fs::write(&path, text).is_ok() {
+            rep.violation_replays.push(path);
+        }
+    }
+    rep.samples = hs
+        .iter()
+        .skip(40)
+        .step_by((hs.len() / 3).max(1))
+        .take(3)
+        .map(|h| serde_json::json!({"tier": "real bash lock-step", "history": h.snippets.iter().map(|s| format!("[{}] {} => {}", s.tag, s.code, s.end)).collect::<Vec<_>>()}))
+        .collect();
+    rep.coverage = serde_json::json!({
+        "histories": hs.len(),
+        "what": "each history is run through the real StatefulExecutor (one real bash per snippet) and through one real bash session; every probe's stdout and status are compared",
+        "snippet_kinds": tag_counts,
+        "probes_per_snippet": probe_all().lines().count(),
+    });
+    rep
+}
+
+// ------------------------------------------------------------------ C13 stub conformance
+
+fn octal(bytes: &[u8]) -> String {
+    let mut s = String::new();
+    for b in bytes {
+        s.push_str(&format!("\\{:04o}", b));
+    }
+    s
+}
+
+/// real bash code that does what the simulated program does
+fn real_code(ops: &[Op]) -> Option<String> {
+    let mut s = String::new();
+    for op in ops {
+        match op {
+            Op::Out { fd, data } => {
+                if data.0.len() > 20_000 {
+                    return None;
+                }
+                if !data.0.is_empty() {
+                    s.push_str(&format!("printf '%b' '{}' >&{}\n", octal(&data.0), fd));
+                }
+            }
+            Op::Status { code } => {
+                s.push_str(&format!("(exit {})\n", code));
+                return Some(s);
+            }
+            Op::ExitShell { code } => {
+                s.push_str(&format!("exit {}\n", code));
+                return Some(s);
+            }
+            _ => return None,
+        }
+    }
+    s.push_str("true\n");
+    Some(s)
+}
+
+fn run_c13_conformance(tier: &str, seed: u64, threads: usize) -> RealReport {
+    let mut rep = RealReport::default();
+    let all = crate::gen::lane_bytes(seed);
+    let want = if tier == "thorough" { 600 } else { 120 };
+    let cands: Vec<Scenario> = all
+        .into_iter()
+        .filter(|s| {
+            s.tier == Tier::Lib
+                && !s.lane.contains("early-exit")
+                && !s.lane.contains("expr-token")
+                && !s.lane.contains("divider")
+                && s.docs[0].tests.iter().all(|t| real_code(&s.sim.programs[&t.nonce]).is_some())
+        })
+        .collect();
+    let step = (cands.len() / want).max(1);
+    let sample: Vec<Scenario> = cands.into_iter().step_by(step).collect();
+    let sample = Arc::new(sample);
+    let next = Arc::new(AtomicUsize::new(0));
+    let errs: Arc<Mutex<Vec<String>>> = Arc::new(Mutex::new(vec![]));
+    let mut handles = vec![];
+    for _ in 0..threads.max(1) {
+        let (sample, next, errs) = (sample.clone(), next.clone(), errs.clone());
+        handles.push(
+            std::thread::Builder::new()
+                .stack_size(1 << 28)
+                .spawn(move || loop {
+                    let i = next.fetch_add(1, Ordering::SeqCst);
+                    if i >= sample.len() {
+                        break;
+                    }
+                    if let Err(e) = conform_one(&sample[i]) {
+                        errs.lock().unwrap().push(format!("[conformance {}] {}", sample[i].lane, e));
+                    }
+                })
+                .unwrap(),
+        );
+    }
+    for h in handles {
+        let _ = h.join();
+    }
+    rep.runs = sample.len() as u64;
+    rep.signatures = sample.iter().map(|s| format!("R|conf|{}", s.lane)).collect();
+    rep.harness_errors = Arc::try_unwrap(errs).ok().unwrap().into_inner().unwrap();
+    rep.coverage = serde_json::json!({
+        "conformance_scenarios": sample.len(),
+        "what": "the same scenario is run simulated and with real bash (printf of the same bytes); the executor's Outputs must be identical, otherwise the stub is wrong (harness error)",
+    });
+    rep
+}
+
+fn conform_one(sc: &Scenario) -> Result<(), String> {
+    // simulated
+    let sim_obs = crate::runlib::run_lib(sc);
+    let sim_raw: Vec<Option<RawOut>> = sim_obs.docs.first().map(|d| d.tests.iter().map(|t| t.raw.clone()).collect()).unwrap_or_default();
+    // real: same test cases, expressions replaced by equivalent bash
+    let l = layout().map_err(|e| e.to_string())?;
+    let doc = &sc.docs[0];
+    let mut tcs = crate::runlib::build_testcases(sc, doc, &l.tmp, &l.work)?;
+    for (tc, t) in tcs.iter_mut().zip(doc.tests.iter()) {
+        let code = real_code(&sc.sim.programs[&t.nonce]).ok_or("not expressible")?;
+        tc.shell_expression = format!(": '@vs:{}@' '@ve:{}@'\n{}", t.nonce, t.nonce, code.trim_end());
+    }
+    let refs: Vec<&TestCase> = tcs.iter().collect();
+    let dconf = DocumentConfig {
+        defaults: crate::runlib::to_tc_config(&doc.defaults),
+        total_timeout: Some(std::time::Duration::from_secs(60)),
+        ..DocumentConfig::empty()
+    };
+    let context = ContextBuilder::default()
+        .work_directory(l.work.clone())
+        .temp_directory(l.tmp.clone())
+        .file(PathBuf::from(&doc.path))
+        .config(dconf)
+        .build()
+        .map_err(|e| e.to_string())?;
+    let executor: Box<dyn Executor> = if sc.script_mode {
+        Box::new(BashScriptExecutor::new(Path::new("/bin/bash")))
+    } else {
+        Box::new(StatefulExecutor::new(BashRunner::stateful_generator(Path::new("/bin/bash"))))
+    };
+    let real = executor.execute_all(&refs, &context);
+    let sim_failed = sim_obs.docs.first().map(|d| !matches!(d.exec, ExecResult::Ok)).unwrap_or(true);
+    match real {
+        Err(e) => {
+            if sim_failed {
+                return Ok(());
+            }
+            Err(format!("real bash run failed ({}), simulated run did not", e.to_string().lines().next().unwrap_or("")))
+        }
+        Ok(outs) => {
+            if sim_failed {
+                return Err("simulated run failed, real bash run did not".into());
+            }
+            for (i, (o, s)) in outs.iter().zip(sim_raw.iter()).enumerate() {
+                let Some(s) = s else { continue };
+                let so: &[u8] = (&o.stdout).into();
+                let se: &[u8] = (&o.stderr).into();
+                let code = match &o.exit_code {
+                    ExitStatus::Code(c) => ExitObs::Code { code: *c },
+                    _ => ExitObs::Unknown,
+                };
+                if so != &s.stdout.0[..] || se != &s.stderr.0[..] || code != s.exit {
+                    return Err(format!(
+                        "test #{}: real stdout {:?} stderr {:?} exit {:?}; simulated stdout {:?} stderr {:?} exit {:?}",
+                        i + 1,
+                        Bytes(so.to_vec()),
+                        Bytes(se.to_vec()),
+                        code,
+                        s.stdout,
+                        s.stderr,
+                        s.exit
+                    ));
+                }
+            }
+            Ok(())
+        }
+    }
+}
+
+pub fn replay_real(path: &str, text: &str) -> i32 {
+    std::env::set_var(INHERITED, "inherited-value");
+    let h: History = match serde_json::from_str(text) {
+        Ok(h) => h,
+        Err(e) => {
+            eprintln!("vsim: {}: {}", path, e);
+            return 2;
+        }
+    };
+    let a = compare(&h);
+    let b = compare(&h);
+    match (a, b) {
+        (Ok(Some(d1)), Ok(Some(d2))) if d1 == d2 => {
+            println!("violation C12/state-differs-real: {}", d1);
+            println!("VIOLATION property=C12 replay={}", path);
+            1
+        }
+        (Ok(None), Ok(None)) => {
+            println!("vsim: {} does not reproduce on this tree", path);
+            0
+        }
+        (a, b) => {
+            println!("vsim: replay of {} is not stable: {:?} / {:?}", path, a, b);
+            2
+        }
+    }
 }
